@@ -307,6 +307,10 @@ impl Scenario for C02 {
             let mut b = data.clone();
             b.extend(cx.bytes(extra));
             bodies.push(b);
+            // ... and the same with extra bytes that are all zero (the checksum does not move)
+            let mut z = data.clone();
+            z.extend(std::iter::repeat(0u8).take(extra));
+            bodies.push(z);
         }
         if l >= 1 {
             bodies.push(data[..l - 1].to_vec());
